@@ -1,5 +1,5 @@
 """C08: field propagation -- control logic of FieldPropagator::operator()(step) (numerics stubbed)."""
-from vkit.extract import Rule, LoopContracts
+from vkit.extract import Rule, LoopContracts, MulToUF
 from vkit.runner import Unit
 
 FP = "src/celeritas/field/FieldPropagator.hh"
@@ -134,8 +134,10 @@ UNITS = [
 FD = "src/celeritas/field/FieldDriver.hh"
 FD_MODEL = """
 #include <math.h>
-typedef struct { real_type v[3]; } Real3;
-typedef struct { Real3 pos; Real3 mom; } OdeState;
+typedef struct { real_type pos; real_type mom; } OdeState;     /* Real3 pos, mom abstracted to one component each (values irrelevant here) */
+double __CPROVER_uninterpreted_mul(double, double);
+/* products of two positive numbers: uninterpreted, only known to be non-negative */
+static real_type MUL(real_type a, real_type b) { real_type r = __CPROVER_uninterpreted_mul(a, b); __CPROVER_assume(!(a >= 0 && b >= 0) || r >= 0); return r; }
 typedef struct { OdeState state; real_type step; } DriverResult;
 typedef struct { DriverResult end; real_type proposed_step; } Integration;    /* {end, proposed_step} */
 typedef struct { real_type initial_step_tol, epsilon_step, minimum_step; short max_nsteps; } FieldDriverOptions;
@@ -156,12 +158,14 @@ static real_type celer_max(real_type a, real_type b) { return fmax(a, b); }
 """
 FD_RULES = [
     Rule(r"\boptions_\.", "self->options_->", "*", note="const& member"),
-    Rule(r"Integration output;", "Integration output = {{{{{0, 0, 0}}, {{0, 0, 0}}}, 0}, 0};", 1, note="default member initializers"),
+    Rule(r"Integration output;", "Integration output = {{{0, 0}, 0}, 0};", 1, note="default member initializers"),
+    MulToUF(),
     Rule(r"output\.end\.state = state;", "output.end.state = *state;", 1, note="const& parameter -> pointer"),
     Rule(r"auto remaining_steps = ", "short remaining_steps = ", 1, note="auto -> short int"),
     Rule(r"output = this->integrate_step\(h, output\.end\.state\);", "output = FD_integrate_step(self, h, &output.end.state);", 1, note="member call -> stub with its contract"),
     Rule(r"celeritas::min\(|(?<![\w_])min\(", "celer_min(", "*", note="celeritas::min"),
     Rule(r"celeritas::max\(|(?<![\w_])max\(", "celer_max(", "*", note="celeritas::max"),
+    Rule(r"(curve_length \+= output\.end\.step;)", r'\1 __CPROVER_assert(curve_length == g_curve, "ghost.lockstep: accumulated curve length equals the sum of the integrated substeps"); __CPROVER_assume(curve_length == g_curve); /* cut: checked, then used */', (0, 1), note="ghost lock-step cut"),
     Rule(r"CELER_ENSURE\(curve_length > 0\s*&& \(curve_length <= step \|\| soft_equal\(curve_length, step\)\)\);", "CELER_ENSURE(curve_length > 0); /* second conjunct (<= step up to rounding) NOT PROMOTED: FP accumulation */", 1, note="ENSURE split"),
 ]
 
